@@ -9,7 +9,7 @@ RULE = ('byte strings up to 64 KiB of six kinds: arbitrary bytes (uniform, print
         'token-level mutations (delete / duplicate / swap / replace, 1-4 per program), every literal of the C09 enumeration '
         '(valid, out of range, overflowing) in every literal context (initial value, expression, subrange and array bounds, '
         'string length, case selector, task interval and priority, repeat count), bracket / call / subscript / statement '
-        'nesting to depth 12, OSCAT description markers in every order and multiplicity up to 4, and flat chains (operators, field selectors, subscripts, statements, ELSIF arms) up to the size '
+        'nesting to depth 12, OSCAT description markers in every order and multiplicity up to 4, sets of 1-3 files with 0-300 diagnostics of up to four rules, and flat chains (operators, field selectors, subscripts, statements, ELSIF arms) up to the size '
         'limit, and the repository fixtures with byte-level damage; oracle (implementation only): in-process '
         'tokenize_program / parse_program / analyze / write_to_string each answer ok or a diagnostic — no panic, no abort, no '
         'stack overflow — within the time budget per stage, and `ironplcc tokenize|check|echo` on the same bytes exits 0 or 1 '
@@ -403,6 +403,41 @@ def run(ctx):
                                                                      'bytes_hex': c['data'].hex() if len(c['data']) <= 4000 else None,
                                                                      'text': c['data'][:600].decode('utf-8', 'replace')},
                                            'impl': err, 'model': None, 'what': what})
+    # ---- sets of several files with many diagnostics of several rules (0, 1, 2, 10, 11, 20, 21, 22, 40, 100 per set): what the
+    #      analysis does with its list of diagnostics (collecting, ordering, reporting) must not depend on how many there are
+    def faulty_decls(kind, base, n):
+        if kind == 'subrange': return ''.join(f'TYPE\n  T{base + j} : INT({5 + j}..{j});\nEND_TYPE\n' for j in range(n))
+        if kind == 'enum': return ''.join(f'TYPE\n  E{base + j} : (A{base + j}, B{base + j}, A{base + j});\nEND_TYPE\n' for j in range(n))
+        if kind == 'struct': return ''.join(f'TYPE\n  S{base + j} : STRUCT\n    X : INT;\n    X : BOOL;\n  END_STRUCT;\nEND_TYPE\n' for j in range(n))
+        return ''.join(f'FUNCTION_BLOCK F{base + j}\nVAR CONSTANT\n  C : INT;\nEND_VAR\nEND_FUNCTION_BLOCK\n' for j in range(n))
+    many = []
+    for total in ([0, 1, 2, 11, 21, 22, 40] if ctx.quick() else [0, 1, 2, 5, 10, 11, 19, 20, 21, 22, 23, 32, 33, 40, 64, 65, 100, 300]):
+        for nfiles in (1, 2, 3):
+            for mix in (['subrange'], ['subrange', 'enum'], ['subrange', 'enum', 'struct', 'const']):
+                texts = ['PROGRAM P%d\nVAR\n  x : INT;\nEND_VAR\nx := 1;\nEND_PROGRAM\n' % f for f in range(nfiles)]
+                for j in range(total):
+                    f = rng.randrange(nfiles)
+                    texts[f] += faulty_decls(mix[j % len(mix)], 1000 * f + j, 1)
+                many.append((total, nfiles, '+'.join(mix), texts))
+    mres = core.run_lines(core.VH, ['project ' + ' '.join(core.hexs(t) for t in texts) for (_, _, _, texts) in many], jobs=12, line_timeout=120)
+    def many_cli(x):
+        total, nfiles, mix, texts = x
+        return cli.check_files({f'm{k}.st': t for k, t in enumerate(texts)}, order=[f'm{k}.st' for k in range(len(texts))], timeout=CLI_TIMEOUT)
+    with cf.ThreadPoolExecutor(8) as ex:
+        mcli = list(ex.map(many_cli, many))
+    for (total, nfiles, mix, texts), o, r in zip(many, mres, mcli):
+        ctx.evaluations += 2
+        ctx.count('many-diagnostics:sets')
+        show = {'kind': 'many-diagnostics', 'sub': f'{total} faults of {mix} over {nfiles} file(s)', 'size': sum(len(t) for t in texts),
+                'texts': texts if sum(len(t) for t in texts) < 6000 else None}
+        ctx.feature(('many-diagnostics', total, nfiles, mix))
+        if not (o == 'OK' or o.startswith('ERR')):
+            ctx.violations.append({'stream': 'in-process', 'case': show, 'impl': o[:300], 'model': None, 'what': f'the analysis of the set did not return: {o[:80]}'})
+        elif (o == 'OK') != (total == 0):
+            ctx.violations.append({'stream': 'in-process', 'case': show, 'impl': o[:300], 'model': None, 'what': 'the verdict of the set is wrong'})
+        if r['rc'] not in (0, 1):
+            ctx.violations.append({'stream': 'cli', 'case': show, 'impl': cli.strip_ansi(r['stderr'])[-300:], 'model': None,
+                                   'what': f'`ironplcc check` on the set ended with status {r["rc"]} (crash or hang)'})
     for k in known:
         for wt in k.get('witness_hex', []):
             o = core.run_lines(core.VH, ['total ' + wt])[0]
